@@ -14,7 +14,7 @@ pub fn header(proc: &str, variant: &str, mx: &str, org: usize) -> String {
     let xc = match (proc,variant) { ("6502",_) => 0, ("65c02","m8") => 1, ("65c02",_) => 0, (_,"m8") => 2, _ => 0 };
     for _ in 0..xc { h += " XC\n"; }
     h += &format!(" ORG ${:04X}\n",org);
-    if proc=="65802" || proc=="65816" { h += &format!(" MX %{}\n",mx); }
+    if (proc=="65802" || proc=="65816") && variant!="m8" { h += &format!(" MX %{}\n",mx); }   // MX is not a Merlin 8 pseudo-op
     h
 }
 
